@@ -520,6 +520,14 @@ func runC12(r *Run) {
 				bound := core.Bind{"op": b["op"]}
 				crosses := func(pats ...string) func(a, bb *ssa.BasicBlock) bool {
 					return func(a, bb *ssa.BasicBlock) bool {
+						// written inline, or decided by a boolean helper (predicate unfolding)
+						var plain []string
+						for _, pat := range pats {
+							plain = append(plain, strings.ReplaceAll(pat, "?op", "_"))
+						}
+						if r.factsImplyAny(ff.EdgeFacts(a, bb), plain, 2) {
+							return true
+						}
 						for _, ef := range ff.EdgeFacts(a, bb) {
 							set := core.FactSet{ef.Key(): ef}
 							for _, pat := range pats {
@@ -640,12 +648,11 @@ func (r *Run) checkVersionBlindPaths(P string) {
 	blind := r.callsIn(rd, "DocumentHandler.resolveRequestWithInitialState")
 	r.R.Floor(P+".version.blind.floor", "instance floor", len(blind), 1, "initial-state resolution call in ResolveDocument")
 	for i, c := range blind {
-		at := ff.At(c)
-		_, ok := core.MatchAll(at, []string{
-			"ok(document.GetResolutionOptions($2))",
-			`cmp(document.GetResolutionOptions($2).VersionID == "")`,
-			`cmp(document.GetResolutionOptions($2).VersionTime == "")`,
-		}, nil)
+		// decided on the paths (so that the two emptiness tests may be written inline, inverted into an early
+		// return, or inside a boolean helper): the call is unreachable without crossing VersionID = "" and
+		// unreachable without crossing VersionTime = ""
+		ok := !r.reachableWithout(ff, c, []string{`cmp(document.GetResolutionOptions($2).VersionID == "")`}) &&
+			!r.reachableWithout(ff, c, []string{`cmp(document.GetResolutionOptions($2).VersionTime == "")`})
 		r.R.Check(ok, fmt.Sprintf("%s.version.blind.%d", P, i+1), "E8 never-before: resolution from the long-form initial state (which ignores versionId/versionTime) only under VersionID = \"\" ∧ VersionTime = \"\" of the given options",
 			core.FuncName(rd), r.P.Pos(c.Pos()),
 			"the fallback is selected by the text \"not found\" in the processor's error, and the unknown-version errors echo the requested version: a long-form DID resolved at versionId \"x not found\" (or an unparsable versionTime containing that text) is answered with the initial-state document instead of an error",
